@@ -261,6 +261,12 @@ theorem Reg.get_spec (r : Reg) (sid pk : Bytes) (now : Nat) :
 theorem world_eta (W : World) : ({ W with reg := W.reg, closedLog := W.closedLog ++ [] } : World) = W := by
   cases W; simp
 
+/-- sequentially the re-validation after the lock acquisition never fails: `get` just returned the registered entry -/
+theorem Reg.getLive_eq (r : Reg) (sid pk : Bytes) (now : Nat) : r.getLive sid pk now = r.get sid pk now := by
+  unfold Reg.getLive
+  rcases Reg.get_spec r sid pk now with ⟨_, hg⟩ | ⟨e, _, _, hg⟩ | ⟨e, _, _, _, hg⟩ | ⟨e, hf, _, _, hg⟩ <;> rw [hg]
+  simp [Reg.isLive, hf]
+
 theorem Reg.get_world (r : Reg) (sid pk : Bytes) (now : Nat) :
     (r.get sid pk now).1.draining = r.draining ∧ ∀ x ∈ (r.get sid pk now).1.entries, x ∈ r.entries := by
   rcases Reg.get_spec r sid pk now with ⟨_, hg⟩ | ⟨e, _, _, hg⟩ | ⟨e, _, _, _, hg⟩ | ⟨e, _, _, _, hg⟩ <;> rw [hg]
@@ -276,6 +282,7 @@ theorem resolve_world {Wire : Type} [DecidableEq Wire] (C : Codec Wire) (cfg : C
   have triv : ∃ r' cl, W = { W with reg := r', closedLog := cl } ∧ r'.draining = W.reg.draining ∧ ∀ x ∈ r'.entries, x ∈ W.reg.entries :=
     ⟨W.reg, W.closedLog, rfl, rfl, fun _ h => h⟩
   unfold resolve
+  simp only [Reg.getLive_eq]
   cases rq.session with
   | none => exact triv
   | some w =>
@@ -306,6 +313,7 @@ theorem Reg.find_of_mem {r : Reg} (hnd : ∀ x ∈ r.entries, ∀ y ∈ r.entrie
 theorem resolve_fresh {Wire : Type} [DecidableEq Wire] (C : Codec Wire) (cfg : Cfg) (W : World) (rq : Req Wire)
     (h : (resolve C cfg W rq).2 = .fresh) : rq.session = none := by
   unfold resolve at h
+  simp only [Reg.getLive_eq] at h
   cases hs : rq.session with
   | none => rfl
   | some w =>
@@ -330,6 +338,7 @@ theorem resolve_resumed_of {Wire : Type} [DecidableEq Wire] (C : Codec Wire) (cf
     (hf : W.reg.find sid = some e) (hx : expired e W.env.now = false) (hp : e.pkey = pkey rq.ident) :
     resolve C cfg W rq = (W, .resumed e) := by
   unfold resolve
+  simp only [Reg.getLive_eq]
   rw [hs]
   simp only [ho]
   rw [if_neg (fun h => h.2 hsrv)]
@@ -349,6 +358,7 @@ theorem resolve_resumed_inv {Wire : Type} [DecidableEq Wire] (C : Codec Wire) (c
       (checkServerId = true → asciiReplaceUtf8 sidB = cfg.serverId) ∧ W.reg.find sid = some e ∧ expired e W.env.now = false ∧
       (checkPrincipal = true → e.pkey = pkey rq.ident) ∧ resolve C cfg W rq = (W, .resumed e) := by
   unfold resolve at h ⊢
+  simp only [Reg.getLive_eq] at h ⊢
   cases hs : rq.session with
   | none => rw [hs] at h; cases h
   | some w =>
